@@ -566,15 +566,21 @@ class MemEnv:
         batched = cfg['mode'] != 'not'
         for c, call in enumerate(cfg['calls']):
             for r in range(call['n'] if batched else 1):
-                its.append(SimulatedInteraction(mk_ctx(call['ctx'], c, r), mk_acts(call['acts']), eval_rewards(call['acts'], len(its))))
+                i, acts = len(its), mk_acts(call['acts'])
+                extra = {}
+                if cfg.get('le'):          # logged fields: action (an offered one), its reward and its logging probability
+                    li = i % len(acts)
+                    extra = {'action': acts[li], 'reward': eval_rewards(call['acts'], i)[li], 'probability': 0.5}
+                its.append(SimulatedInteraction(mk_ctx(call['ctx'], c, r), acts, eval_rewards(call['acts'], i), **extra))
         return list(Batch(cfg['calls'][0]['n']).filter(its)) if batched else its
 
 
 def execute_eval(cfg, ch, exp_seed=None):
-    """SequentialCB(record action/probability/reward).evaluate(environment, scripted learner) on fresh objects."""
+    """SequentialCB(record action/probability/reward, learn, eval).evaluate(environment, scripted learner) on fresh objects.
+    cfg['le'] = [learn, eval] (environment with logged action/reward/probability); absent: learn='on', eval='on'."""
     fmt, kwid, mode, box, seed = cfg['fmt'], cfg['kw'], cfg['mode'], cfg.get('box', 'm'), cfg.get('seed', 1)
+    learn, ev = cfg.get('le') or ('on', 'on')
     base = base_of(fmt)
-    batched = mode != 'not'
     entries, plan, stop_at = build_plan(cfg, ch)
     out = {'finding': None, 'rows': [], 'demanded': stop_at is None}
     if stop_at is not None: return out
@@ -584,7 +590,7 @@ def execute_eval(cfg, ch, exp_seed=None):
         try:
             CobaContext.store = {} if exp_seed is None else {'experiment_seed': exp_seed}
             try:
-                res = list(SequentialCB(record=['reward', 'action', 'probability'], seed=seed).evaluate(MemEnv(cfg), learner))
+                res = list(SequentialCB(record=['reward', 'action', 'probability'], learn=learn, eval=ev, seed=seed).evaluate(MemEnv(cfg), learner))
             finally:
                 CobaContext.store = {}
         except Exception as ex:   # noqa
@@ -594,7 +600,7 @@ def execute_eval(cfg, ch, exp_seed=None):
         if learner.anomalies:
             raise Finding(comp, 'learner is offered a (context, actions) pair that is not in the environment', learner.anomalies[0])
         flat = [(c, r, en) for c, rows in enumerate(plan) for r, en in enumerate(rows)]
-        if len(res) != len(flat):
+        if ev and len(res) != len(flat):
             raise Finding(comp, 'not one result row per interaction', '%d rows for %d interactions: %r' % (len(res), len(flat), res[:3]))
         # what the learner saw in learn, one tuple per interaction
         seen = []
@@ -613,17 +619,28 @@ def execute_eval(cfg, ch, exp_seed=None):
             raise Finding(comp, 'learner does not learn once per interaction', '%d learn rows for %d interactions' % (len(seen), len(flat)))
         for i, (c, r, en) in enumerate(flat):
             ref_acts = mk_acts(en['acts'])
-            a, p, rw = res[i].get('action'), res[i].get('probability'), res[i].get('reward')
-            j = judge_row(comp, base, ref_acts, en['choice'], a, p, r, c)
-            if rw != eval_rewards(en['acts'], i)[j]:
-                raise Finding(comp, 'recorded reward is not the reward of the action taken', 'interaction %d: action %r reward %r, rewards %r' % (i, a, rw, eval_rewards(en['acts'], i)), c)
+            rewards = eval_rewards(en['acts'], i)
             x, la, lr, lp, lkw = seen[i]
-            exp_kw = mk_kw(kwid, en['e']) or {}
-            bad = ('context' if not same_ctx(x, en['ctx']) else 'action' if not (la == a) else 'reward' if lr != rw else
-                   'probability' if not (lp == p and (lp is None) == (p is None)) else 'kwargs' if dict(lkw) != exp_kw else None)
-            if bad:
-                raise Finding(comp, 'learner receives another %s than was predicted / recorded' % bad,
-                              'interaction %d: learn got %r, expected %r' % (i, seen[i], (en['ctx'], a, rw, p, exp_kw)), c)
+            if not same_ctx(x, en['ctx']):
+                raise Finding(comp, 'learner receives another context than was predicted / recorded', 'interaction %d: learn got %r, expected context %r' % (i, seen[i], en['ctx']), c)
+            a = p = rw = j = None
+            if ev:          # the recorded prediction
+                a, p, rw = res[i].get('action'), res[i].get('probability'), res[i].get('reward')
+                j = judge_row(comp, base, ref_acts, en['choice'], a, p, r, c)
+                if ev == 'on' and rw != rewards[j]:
+                    raise Finding(comp, 'recorded reward is not the reward of the action taken', 'interaction %d: action %r reward %r, rewards %r' % (i, a, rw, rewards), c)
+            if learn != 'off':          # the learner's own prediction is learned: action, probability and kwargs of THAT predict call
+                if ev:
+                    bad = 'action' if not (la == a) else 'probability' if not (lp == p and (lp is None) == (p is None)) else None
+                else:
+                    j = judge_row(comp, base, ref_acts, en['choice'], la, lp, r, c)
+                    a, p, bad = la, lp, None
+                if not bad and learn == 'on' and lr != rewards[j]: bad = 'reward'
+                exp_kw = mk_kw(kwid, en['e']) or {}
+                if not bad and dict(lkw) != exp_kw: bad = 'kwargs'
+                if bad:
+                    raise Finding(comp, 'learner receives another %s than was predicted / recorded' % bad,
+                                  'interaction %d: learn got %r, expected %r' % (i, seen[i], (en['ctx'], a, rewards[j] if learn == 'on' else '<estimate>', p, exp_kw)), c)
             out['rows'].append((repr(a), p))
     except Finding as f:
         out['finding'] = f
@@ -647,9 +664,14 @@ def eval_checked(cfg, ch):
     return r
 
 
-def eval_cfg(fmt, kw, mode, acts, seed):
+def eval_cfg(fmt, kw, mode, acts, seed, le=None):
     ns = [1, 1, 1] if mode == 'not' else [2, 1]
-    return {'fmt': fmt, 'kw': kw, 'mode': mode, 'box': 'm', 'seed': seed, 'calls': [{'acts': acts, 'ctx': 'scalar', 'n': n} for n in ns]}
+    cfg = {'fmt': fmt, 'kw': kw, 'mode': mode, 'box': 'm', 'seed': seed, 'calls': [{'acts': acts, 'ctx': 'scalar', 'n': n} for n in ns]}
+    if le: cfg['le'] = list(le)
+    return cfg
+
+
+LEARNS, EVALS = ['on', 'off', 'ips'], ['on', 'ips', None]
 
 
 def eval_failure(cfg, mode):
@@ -669,13 +691,18 @@ def minimise_eval(cfg, ch, f):
     changed = True
     while changed:
         changed = False
-        fmt, kw, mode, acts, seed = cfg['fmt'], cfg['kw'], cfg['mode'], cfg['calls'][0]['acts'], cfg['seed']
-        cands = [eval_cfg(fmt, kw, m, acts, seed) for m in MODES[:_ord(MODES, mode)]]
-        cands += [eval_cfg(fmt, k, mode, acts, seed) for k in range(kw)]
-        if fmt[0] == 'h': cands.append(eval_cfg(fmt[1:], kw, mode, acts, seed))
-        cands += [eval_cfg(('h' if fmt[0] == 'h' else '') + b, kw, mode, acts, seed) for b in ['A', 'AP', 'PM'][:_ord(['A', 'AP', 'PM'], base_of(fmt))]]
-        cands += [eval_cfg(fmt, kw, mode, a, seed) for a in EVAL_ACTS[:_ord(EVAL_ACTS, acts)]]
-        if seed != 1: cands.append(eval_cfg(fmt, kw, mode, acts, 1))
+        fmt, kw, mode, acts, seed, le = cfg['fmt'], cfg['kw'], cfg['mode'], cfg['calls'][0]['acts'], cfg['seed'], cfg.get('le')
+        cands = []
+        if le:
+            cands.append(eval_cfg(fmt, kw, mode, acts, seed))                 # environment without logged fields, learn='on', eval='on'
+            cands += [eval_cfg(fmt, kw, mode, acts, seed, (l, le[1])) for l in LEARNS[:_ord(LEARNS, le[0])]]
+            cands += [eval_cfg(fmt, kw, mode, acts, seed, (le[0], e)) for e in EVALS[:_ord(EVALS, le[1])]]
+        cands += [eval_cfg(fmt, kw, m, acts, seed, le) for m in MODES[:_ord(MODES, mode)]]
+        cands += [eval_cfg(fmt, k, mode, acts, seed, le) for k in range(kw)]
+        if fmt[0] == 'h': cands.append(eval_cfg(fmt[1:], kw, mode, acts, seed, le))
+        cands += [eval_cfg(('h' if fmt[0] == 'h' else '') + b, kw, mode, acts, seed, le) for b in ['A', 'AP', 'PM'][:_ord(['A', 'AP', 'PM'], base_of(fmt))]]
+        cands += [eval_cfg(fmt, kw, mode, a, seed, le) for a in EVAL_ACTS[:_ord(EVAL_ACTS, acts)]]
+        if seed != 1: cands.append(eval_cfg(fmt, kw, mode, acts, 1, le))
         for cand in cands:
             hit = eval_failure(cand, f.mode)
             if hit:
@@ -688,6 +715,7 @@ def minimise_eval(cfg, ch, f):
     if cfg['kw']: feats.append({1: 'empty kwargs', 2: 'kwargs', 3: 'kwargs with list values'}[cfg['kw']])
     if cfg['calls'][0]['acts'] != 's': feats.append('actions: %s' % ACT_KIND[cfg['calls'][0]['acts']])
     if cfg['seed'] != 1: feats.append('evaluator seed %r' % (cfg['seed'],))
+    if cfg.get('le'): feats.append('logged environment, learn=%r eval=%r' % tuple(cfg['le']))
     key = 'SequentialCB|%s|%s' % (f.mode, ', '.join(feats) or 'any format')
     _EMIN_CACHE[ck] = (key, cfg, ch, f)
     return _EMIN_CACHE[ck]
@@ -723,7 +751,7 @@ class C15(Check):
             'floats, one-hot tuples of 2 and 3, lists, sparse dicts with 1 and 2 features, 1-feature dense) x context kind {None, '
             'scalar, list} x SafeLearner seed (PMF formats) x container types; plus two-call histories where the second call offers '
             'another action set (and another batch size), and three-call histories XXY / XYX / XYY over every ordered pair of 6 action sets with and without 0/1 (joint rotations of the answers); SafeLearner / evaluator seeds include 0 (and 0.0), contexts, kwargs values and stated probabilities include 0; plus the same answers for 3 interactions through the real SequentialCB (5 action sets, '
-            'un-batched and batches of 2+1) and one aggregate case (uniform PMF draws over 4 seeds). Inside a single-call case EVERY assignment of named action / stated '
+            'un-batched and batches of 2+1; learn in {on, off, ips} x eval in {on, ips, None} on an environment with logged action/reward/probability) and one aggregate case (uniform PMF draws over 4 seeds). Inside a single-call case EVERY assignment of named action / stated '
             'probability / PMF (one-hots, two mixed) to the rows is executed; two-call cases execute all rotations (thorough, without kwargs: all rotations of the first x every assignment of the second call). Every execution '
             'builds a fresh scripted learner and SafeLearner, runs predict then learn, and compares with the reference reading. An '
             'execution is non-trivial when it is inside the property\'s quantifier (not an un-hinted PMF that could also be read as an '
@@ -735,7 +763,7 @@ class C15(Check):
         'which action a non-degenerate PMF yields is not constrained beyond: offered, non-zero mass, reported with exactly its mass, identical for equal seeds and for batch vs per-row invocation',
         'the number of predict calls the learner sees is not constrained (SafeLearner probes the layout of square batches with an extra call)',
         'batched kwargs are compared per row ({k: v[row]}); the container types of the returned batch are not constrained',
-        'learn is driven directly with predict\'s result and a reward, as SequentialCB does; in addition a slice (5 scalar action sets, 3 interactions, un-batched and batches of 2+1) runs through the real SequentialCB(record reward/action/probability), where the recorded action / probability / reward and the arguments of learn are compared; a failure there is reported only if SafeLearner driven directly reads the same answers correctly (otherwise the direct case reports it)',
+        'learn is driven directly with predict\'s result and a reward, as SequentialCB does; in addition a slice (5 scalar action sets, 3 interactions, un-batched and batches of 2+1) runs through the real SequentialCB(record reward/action/probability), where the recorded action / probability / reward and the arguments of learn are compared; a failure there is reported only if SafeLearner driven directly reads the same answers correctly (otherwise the direct case reports it); with learn=\'ips\' (own prediction learned with an estimated reward) action, probability and kwargs of that predict call must arrive in learn, the reward value is left to C06; with learn=\'off\' (logged action learned) only the context is compared; eval=\'ips\' rewards are not compared; dr/dm need vowpalwabbit and are outside',
         'a column-major un-hinted PMF history whose FIRST batch is 1 row x 1 action ([[1]]: identical in row- and column-major reading, also under a one-row probe) is demanded for that first call only',
         'reproducibility: coba.random sees a virtual clock whose every reading differs; two executions with the same seed must draw the same actions, and through SequentialCB the draws under an evaluator seed must not depend on CobaContext.store["experiment_seed"]; that the evaluator and a directly built SafeLearner with the same seed draw the same is NOT demanded',
         'sampling: a uniform PMF over two actions must yield both actions somewhere among 16 un-batched and among 12 batched draws (seeds 1,2,3,7); no other distributional demand',
@@ -766,6 +794,15 @@ class C15(Check):
                     for kw in ((0, 2) if quick else range(4)):
                         for seed in (seeds(fmt) if quick else seeds(fmt)[:3]):
                             yield dict(eval_cfg(fmt, kw, mode, acts, seed), via='eval')
+        # ... and with every learn / eval mode that needs no optional package, on an environment that also carries logged fields
+        for learn in LEARNS:
+            for ev in EVALS:
+                for mode in MODES:
+                    for acts in (('s', 'i123') if quick else EVAL_ACTS):
+                        for fmt in FMTS:
+                            for kw in ((0, 2) if quick else range(4)):
+                                for seed in seeds(fmt)[:2]:
+                                    yield dict(eval_cfg(fmt, kw, mode, acts, seed, (learn, ev)), via='eval')
         # single calls
         for mode, n in layouts:
             for acts in ACT_NAMES:
@@ -845,6 +882,7 @@ class C15(Check):
 
     def run_eval(self, case, acc):
         cfg = {k: case[k] for k in ('fmt', 'kw', 'mode', 'calls', 'box', 'seed')}
+        if case.get('le'): cfg['le'] = list(case['le'])
         for ch in ([case['ch']] if 'ch' in case else eval_choices(cfg)):
             r = eval_checked(cfg, ch)
             acc.count('evaluator_executions')
